@@ -52,6 +52,11 @@ def detect(i, checks):
     assert a.returncode == 0, a.stderr
     m = load(i)
     det = m.setdefault('detection', {})
+    import shutil, tempfile
+    keep = tempfile.mkdtemp(prefix='evidence_keep_')
+    for c in checks:      # the evidence of a run against a seeded change must not replace the evidence of the real tree
+        if os.path.exists(os.path.join(ROOT, 'evidence', c + '.json')):
+            shutil.copy(os.path.join(ROOT, 'evidence', c + '.json'), keep)
     try:
         for c in checks:
             r = sh('cd %s && ./check %s --tier quick' % (ROOT, c))
@@ -61,6 +66,10 @@ def detect(i, checks):
             print(i, c, det[c])
     finally:
         sh('git -C /repo checkout -- .')
+        for c in checks:
+            if os.path.exists(os.path.join(keep, c + '.json')):
+                shutil.copy(os.path.join(keep, c + '.json'), os.path.join(ROOT, 'evidence', c + '.json'))
+        shutil.rmtree(keep, ignore_errors=True)
     save(i, m)
 
 
